@@ -52,6 +52,63 @@ for cls in (pollers.Select, pollers.Poll, pollers.EPoll):
         for a, b in pairs: a.close(); b.close()
         if bad: break
     if bad: break
+
+# ---- descriptor-number re-use: a descriptor goes away (peer hang-up handled by the poller itself, plain discard, or a close the
+# poller is not told about), its number is taken by a NEW descriptor registered for the same or other roles: the new descriptor
+# must be reported when ready (it is writable at once), addressed to its own channel, and the old object must never be reported.
+def reuse_scenarios():
+    for cls in (pollers.Select, pollers.Poll, pollers.EPoll):
+        for roles0 in ('W', 'R', 'RW'):
+            for how in ('hangup', 'discard', 'close_untold'):
+                for roles1 in ('W', 'RW'):
+                    yield cls, roles0, how, roles1
+
+for cls, roles0, how, roles1 in ([] if bad else reuse_scenarios()):
+    p = cls()
+    a, b = socket.socketpair()
+    a.setblocking(False)
+    src_a = Src('old')
+    if 'R' in roles0: p.addReader(src_a, a)
+    if 'W' in roles0: p.addWriter(src_a, a)
+    emitted(p)
+    num = a.fileno()
+    if how == 'hangup':
+        b.close()
+        first = emitted(p)
+        # what the socket layer does on _disconnect / EOF: drop whatever is still registered, then close
+        p.discard(a)
+    elif how == 'discard':
+        p.discard(a)
+    if how == 'close_untold' and cls is pollers.Select:
+        p.discard(a)      # select() itself raises on a closed descriptor; Select users must discard before closing
+    a.close()
+    if how != 'hangup':
+        b.close()
+    # obtain a new descriptor with the same number
+    keep, c, d = [], None, None
+    for _ in range(64):
+        x, y = socket.socketpair()
+        if x.fileno() == num:
+            c, d = x, y
+            break
+        if y.fileno() == num:
+            c, d = y, x
+            break
+        keep += [x, y]
+    for k in keep: k.close()
+    if c is None:
+        continue
+    c.setblocking(False)
+    src_c = Src('new')
+    if how == 'close_untold' and cls is not pollers.Select:
+        p.discard(a)      # late clean-up of the stale object, as sockets.py does when it finally notices
+    if 'R' in roles1: p.addReader(src_c, c)
+    if 'W' in roles1: p.addWriter(src_c, c)
+    got = emitted(p)
+    if ('_write', c, 'new') not in got or any(x is a for _, x, _ in got):
+        bad.append('%s: descriptor number %d re-used after %s (old roles %s, new roles %s): new descriptor registered for writing and '
+                   'writable, emitted %r' % (cls.__name__, num, how, roles0, roles1, [(n, 'old' if x is a else 'new', ch) for n, x, ch in got]))
+    p.discard(c); c.close(); d.close()
 for b in bad[:4]: print(b)
 if bad: print('REPRODUCED')
 sys.exit(1 if bad else 0)
